@@ -10,7 +10,7 @@ var specs = map[string]*propSpec{
 			"framing reference = encoding/json.Decoder (token level only); per-value reference = sonic's one-shot decoder on each frame",
 			"tails are restricted to framing-level truncation/garbage; value-level malformedness is C02's subject",
 			"destinations always fit the generated values (the stream decoder documents every error as sticky)",
-			"Writer obeys the io.Writer contract (n < len(p) implies err != nil)",
+			"failing Writers obey the io.Writer contract (n < len(p) together with the error); one fault kind is a Writer that takes only part of what it is offered WITHOUT an error: upstream's non-indenting path writes in a loop, so such a Writer must still receive every byte (not applied to the indenting path, where io.Copy reports io.ErrShortWrite)",
 		},
 		Batches: []batch{
 			{Name: "stream", Flavour: "plain", Quick: 160000, Thorough: 6000000, PerProc: 10000},
